@@ -180,3 +180,60 @@ def compare(model, real, rel=1e-9):
         if real.visual.get('linewidth') != int(p['width']):
             return 'width', f'{real.visual.get("linewidth")!r}, expected {p["width"]}'
     return None
+
+
+# ---------------------------------------------------------------------------------------------------------------
+# an independent tokenizer for text produced by the writer (line kinds and key=value pairs only)
+FRAMEWORDS = {'image', 'icrs', 'fk5', 'j2000', 'fk4', 'b1950', 'galactic', 'ecliptic', 'physical'}
+
+
+def _props(s):
+    out = {}
+    i, n = 0, len(s)
+    while i < n:
+        while i < n and s[i] == ' ':
+            i += 1
+        j = s.find('=', i)
+        if j < 0:
+            break
+        key = s[i:j].strip()
+        i = j + 1
+        if i < n and s[i] in '{"\'':
+            close = {'{': '}', '"': '"', "'": "'"}[s[i]]
+            e = s.find(close, i + 1)
+            val = s[i + 1:e]
+            i = e + 1
+        else:
+            e = s.find(' ', i)
+            e = n if e < 0 else e
+            val = s[i:e]
+            i = e
+        if key == 'tag':
+            out.setdefault('tag', []).append(val)
+        else:
+            out[key] = val
+    return out
+
+
+def tokenize(text):
+    """-> list of abstract lines: frame / global / region (shape, numbers as strings, props)."""
+    lines = []
+    for raw in text.split('\n'):
+        raw = raw.strip()
+        if not raw or raw.startswith('#'):
+            continue
+        if raw.startswith('global '):
+            lines.append({'k': 'global', 'props': _props(raw[7:])})
+            continue
+        parts = raw.split(';', 1) if (raw.split(';', 1)[0].strip() in FRAMEWORDS and ';' in raw) else [raw]
+        if len(parts) == 2:
+            lines.append({'k': 'frame', 'name': parts[0].strip()})
+            raw = parts[1].strip()
+        if raw in FRAMEWORDS:
+            lines.append({'k': 'frame', 'name': raw})
+            continue
+        body, _, meta = raw.partition(' # ')
+        shape, _, rest = body.partition('(')
+        nums = rest.rstrip(') ').split(',')
+        lines.append({'k': 'region', 'shape': shape.strip(), 'nums': [x.strip() for x in nums], 'props': _props(meta)})
+    return lines
